@@ -82,6 +82,18 @@ def _case(draw):
         at = draw(st.integers(0, len(ops)))
         ops[at:at] = [["src", sj, pj, 0], ["src", sj, pj, draw(st.integers(1, 9))], ["src", si, pi, draw(st.integers(10, 60))]]
     case = {"ctor": ctor, "ops": ops}
+    if draw(st.integers(0, 2)) == 0:
+        # the sources start from other values (negative ones make the skipping references skip from the very beginning)
+        case["src_init"] = [[draw(st.sampled_from([-5, -1, 1, 3])), draw(st.sampled_from([-5, -1, 2, 4]))] for _ in range(2)]
+    if draw(st.integers(0, 3)) == 0:
+        # side scenario: two targets linked to one source; a watcher of the first overrides / relinks a parameter of the second
+        # while the source is announcing a batch
+        case["two_targets"] = {
+            "action": draw(st.sampled_from(["override", "relink"])),
+            "first_made_first": draw(st.booleans()),
+            "batches": draw(st.lists(st.tuples(st.sampled_from([5, 6, 500, 8, 700]), st.integers(0, 9), st.sampled_from(["update", "batch", "single"])),
+                                     min_size=1, max_size=5).map(lambda l: [list(x) for x in l])),
+        }
     if ctor and draw(st.integers(0, 3)) == 0:
         # an on_init method of the target (part of construction, run once the keywords are in place) overrides a parameter
         # or moves a source
@@ -122,7 +134,10 @@ def execute(case):
             setattr(srcs[boot[1]], boot[2], boot[3])
 
     S, T = rw.make_classes(boot_fn if boot else None)
-    srcs = [S(), S()]
+    si_ = case.get("src_init")
+    srcs = [S(v=si_[i][0], w=si_[i][1]) for i in (0, 1)] if si_ else [S(), S()]
+    if si_:
+        res.label("sources_start_from_other_values")
     mv = {(i, p): getattr(srcs[i], p) for i in (0, 1) for p in ("v", "w", "s")}
     links = {}      # name -> (closure, deps)
     plain = {}      # name -> value it must keep (overridden names)
@@ -139,7 +154,7 @@ def execute(case):
                                                             (boot[1], boot[2]): boot[3]})) for n, (fn, _d) in links.items()):
         boot = None           # (would make a linked value invalid during construction: not this clause's subject)
         S, T = rw.make_classes(None)
-        srcs = [S(), S()]
+        srcs = [S(v=si_[i][0], w=si_[i][1]) for i in (0, 1)] if si_ else [S(), S()]
         links, kw = {}, {}
         for n, spec in case["ctor"]:
             ref, fn, deps = rw.build_ref(spec, srcs)
@@ -366,7 +381,60 @@ def execute(case):
             break
     if len([n for n in links]) + len(plain) >= 2 and hist["relinked"] and hist["after_relink_src_updates"] >= 1:
         marks.add("relink_then_source_updates")
+    if case.get("two_targets") and not res.violations:
+        _two_targets(res, case["two_targets"])
     for m in marks:
         res.label(m)
     res.nontrivial = bool(marks & {"relink_then_source_updates", "link_made_later", "nested_reference"})
     return res
+
+
+def _two_targets(res, c):
+    """first.x and second.x follow src.v, second.y follows src.w.  A watcher of first.x reacts to large values by overriding
+    second.y (plain value) or relinking it (other.w).  Whatever the source announces, and however (single assignments, update,
+    an explicit batch): each target mirrors its live links after the operation, and the override stays."""
+    import param
+    from param.parameterized import batch_call_watchers
+    S, T = rw.make_classes()
+    src, other = S(), S()
+    if c["first_made_first"]:
+        first = T(x=src.param.v)
+        second = T(x=src.param.v, y=src.param.w)
+    else:
+        second = T(x=src.param.v, y=src.param.w)
+        first = T(x=src.param.v)
+    state = {"y": "linked"}
+
+    def guard(event):
+        if event.new >= 100 and state["y"] == "linked":
+            if c["action"] == "override":
+                second.y = -1
+                state["y"] = "plain"
+            else:
+                second.y = other.param.w
+                state["y"] = "relinked"
+    first.param.watch(guard, "x")
+    res.label("two_targets:" + c["action"])
+    for v, w, how in c["batches"]:
+        if how == "update":
+            src.param.update(v=v, w=w)
+        elif how == "batch":
+            with batch_call_watchers(src):
+                src.v = v
+                src.w = w
+        else:
+            src.v = v
+            src.w = w
+        tag = f"two targets {c['action']}: after the source announced v={v}, w={w} ({how})"
+        if first.x != v or second.x != v:
+            res.fail("C08.link_not_mirrored", f"{tag}: first.x={first.x!r}, second.x={second.x!r}")
+        want_y = {"linked": w, "plain": -1, "relinked": other.w}[state["y"]]
+        if second.y != want_y:
+            res.fail("C08.link_not_mirrored" if state["y"] != "plain" else "C08.override_not_kept",
+                     f"{tag}: second.y={second.y!r}, expected {want_y!r} ({state['y']})")
+        if res.violations:
+            return
+    if state["y"] == "relinked":
+        other.w = 77
+        if second.y != 77:
+            res.fail("C08.link_not_mirrored", f"two targets relink: second.y={second.y!r} after its new source moved to 77")
